@@ -39,6 +39,11 @@ SOURCE_SITES = [
 ]
 TRUSTED = ['harness channels / server set standing for the next sinks and the provider (harness/lbrun.py)',
            'random.choice / random.randint results are recorded from the run and passed to the model',
+           'scales.varz.Ema.Update is wrapped ON THE CLASS for the duration of a script (what each call was given, held before '
+           'and returned goes on record): the Ema object the balancer uses is the one the code under test made for itself',
+           'a second ApertureBalancerSink of the same process (harness/isolation.py aperture_balancer(), four members, mock '
+           'channels) takes one request before every aperture script and the requests of the `decoy` operations: nothing of '
+           'it is recorded or passed to the model',
            'the EMA value of each _AdjustAperture call is taken from the real Ema.Update (exact rational of the float) and '
            'the decay weight from the real math.exp call inside it (scales.varz.math is a logging proxy); math.exp and '
            'float arithmetic are not modelled: the model checks one exact EMA step against the recorded value within '
@@ -57,7 +62,9 @@ ASSUMPTIONS = ['decisions whose load is within 1e-9 of a bound (but not on it) e
 RULE = ('scripts from the seeded generator over a grid of (min_size, max_size, min_load, max_load, member count), '
         'traffic hovering around stepped outstanding levels with virtual time passing and (half of the scripts) the wall '
         'clock stepping backwards 1 ms … 30 s one to four times, member failures, joins/leaves, '
-        'slow and failing opens, jitter rounds; non-trivial = reaches an expansion, a contraction, a jitter round, a '
+        'slow and failing opens, jitter rounds, and (a fifth of the scripts, tag decoy-traffic) one to four bursts of 1 … 12 '
+        'requests through a second aperture balancer of the same process, 100 ms … 5 s of virtual time before each, '
+        'between the traffic of the balancer under test; non-trivial = reaches an expansion, a contraction, a jitter round, a '
         'closed channel, a failed open or a removal')
 
 
